@@ -451,7 +451,21 @@ func replyC05(r *rng, n int, base int, timeout time.Duration) error {
 		name := encodeLabels([][]byte{[]byte(fmt.Sprintf("c%d", i)), []byte("test")})
 		ms := msgSpec{id: r.intn(65536), flags: 0x0100, qs: [][]byte{question(name, 1, 1)}}
 		if m >= 0 {
-			ms.ar = []rr{optRR(m, 0, nil)}
+			// the OPT TTL field (extended rcode, version, DO and Z bits) and further options must not move the limit
+			ttl := uint32(0)
+			switch i % 4 {
+			case 1:
+				ttl = 0x8000 // DNSSEC OK
+			case 2:
+				ttl = uint32(r.intn(1<<16))<<16 | uint32(r.intn(1<<16))
+			case 3:
+				ttl = 0x8000 | uint32(r.intn(256))<<16
+			}
+			var opts []opt
+			if i%5 == 4 {
+				opts = []opt{{[]int{10, 12, 15, 3}[r.intn(4)], r.bytes(r.intn(12))}}
+			}
+			ms.ar = []rr{optRR(m, ttl, opts)}
 		}
 		q := ms.encode()
 		flags := 0x8180
